@@ -42,8 +42,16 @@ func driveLruRetention(opt *Options) error {
 			return len(k), nil
 		}
 		deleted := 0
-		onDel := func(k string, v int) { deleted++ }
+		panicNext := false
+		onDel := func(k string, v int) {
+			deleted++
+			if panicNext {
+				panicNext = false
+				panic("delete callback failed")
+			}
+		}
 		var stats func() (int, int, int, int, int)
+		var stale func() int
 		var get func(k string)
 		var remove func(k string)
 		var clear func()
@@ -53,6 +61,7 @@ func driveLruRetention(opt *Options) error {
 				return err
 			}
 			stats = func() (int, int, int, int, int) { return lru.VerifListStats(c.ECache) }
+			stale = func() int { return lru.VerifStaleVals(c.ECache) }
 			get = func(k string) { c.GetOrCreate(k) }
 			remove = func(k string) { c.Remove(k) }
 			clear = func() { c.Clear() }
@@ -62,6 +71,7 @@ func driveLruRetention(opt *Options) error {
 				return err
 			}
 			stats = func() (int, int, int, int, int) { return lru.VerifListStats(c) }
+			stale = func() int { return lru.VerifStaleVals(c) }
 			get = func(k string) { c.GetOrCreate(k) }
 			remove = func(k string) { c.Remove(k) }
 			clear = func() { c.Clear() }
@@ -83,7 +93,11 @@ func driveLruRetention(opt *Options) error {
 				remove(k)
 				op = "Remove"
 			default:
-				clear()
+				// now and then the user's delete callback panics inside Clear and the caller recovers:
+				// the cache must not keep anything pinned because of that
+				panicNext = rnd.Intn(3) == 0
+				callPanics(clear)
+				panicNext = false
 				op = "Clear"
 			}
 			if i%(opt.N/8+1) == opt.N/16 {
@@ -112,7 +126,7 @@ func driveLruRetention(opt *Options) error {
 			if i%sampleEvery == 0 || op == "Burst" || op == "Clear" && rnd.Intn(4) == 0 || i == opt.N-1 {
 				nodes, del, refSum, length, inflight := stats()
 				tw.Emit(map[string]any{"op": op, "cap": cp, "call": i, "nodes": nodes, "deleted": del,
-					"refsum": refSum, "len": length, "inflight": inflight})
+					"refsum": refSum, "len": length, "inflight": inflight, "stale": stale()})
 			}
 		}
 	}
